@@ -159,7 +159,7 @@ def check_C09():
 
 def check_C06():
     ctx = Ctx("C06"); cov = {}
-    broken = proof_part(ctx, "props/C06.v", ["proofs/C06_seq.v", "proofs/C06_hist.v", "proofs/C12_twins.v", "proofs/C01_ops.v", "proofs/C02_good.v", "proofs/C02_methods.v", "proofs/C02_lin.v"], cov)
+    broken = proof_part(ctx, "props/C06.v", ["proofs/C06_seq.v", "proofs/C06_hist.v", "proofs/C12_twins.v", "proofs/C01_ops.v", "proofs/C02_good.v", "proofs/C02_methods.v", "proofs/C02_lin.v", "proofs/CX_compose.v", "proofs/CX_product.v", "proofs/CX_mapof.v", "proofs/CX_map.v", "proofs/CX_monitor.v", "proofs/CX_monitor_inst.v", "proofs/C02_lin_gen.v", "proofs/C02_methods_of.v"], cov)
     res = cache_seq_part(ctx, "C06", cov, N(ctx, 1200, 20000), broken, dense=True)
     law_part(ctx, "C06", cov, res)
     # removals made by the janitor: real time, callback swapped after construction in half of the cases
@@ -420,7 +420,7 @@ def sched_part(ctx, pid, cov, sets, directed=True, extra=()):
 
 def check_C02():
     ctx = Ctx("C02"); cov = {}
-    broken = proof_part(ctx, "props/C02.v", ["proofs/C02_good.v", "proofs/C02_methods.v", "proofs/C02_lin.v", "proofs/C01_sim.v", "proofs/C01_ops.v", "Lin.v", "proofs/CX_trans.v", "proofs/CX_compose.v", "proofs/CX_product.v", "proofs/CX_mapof.v", "proofs/CX_map.v", "proofs/C02_methods_of.v", "proofs/C02_lin_gen.v", "proofs/C02_lin_of.v", "proofs/CX_cacheof.v", "proofs/X_linearizable.v", "proofs/XS_linearizable.v", "XMachine.v", "XMachineS.v"], cov)
+    broken = proof_part(ctx, "props/C02.v", ["proofs/C02_good.v", "proofs/C02_methods.v", "proofs/C02_lin.v", "proofs/C01_sim.v", "proofs/C01_ops.v", "Lin.v", "proofs/CX_trans.v", "proofs/CX_compose.v", "proofs/CX_product.v", "proofs/CX_mapof.v", "proofs/CX_map.v", "proofs/C02_methods_of.v", "proofs/C02_lin_gen.v", "proofs/C02_lin_of.v", "proofs/CX_cacheof.v", "proofs/CX_product2.v", "proofs/CX_mapof2.v", "proofs/CX_map2.v", "proofs/X_linearizable2.v", "proofs/XS_linearizable2.v", "proofs/X_linearizable.v", "proofs/XS_linearizable.v", "XMachine.v", "XMachineS.v"], cov)
     n = N(ctx, 2500, 40000)
     sched_part(ctx, "C02", cov, [("Cache", n, []), ("CacheOf_int", n, []), ("CacheOf_str", n // 2, ["-sched", "pct"]),
                                  ("Cache", n // 2, ["-threads", "4", "-ops", "4", "-sched", "mix"])])
